@@ -9,6 +9,8 @@ package main
 
 import (
 	"bufio"
+
+	acme "github.com/squadracorsepolito/acmelib"
 	"fmt"
 	"hash/fnv"
 	"os"
@@ -58,6 +60,31 @@ func shapeOf(taint string) string {
 		return "two-signals-of-the-enum-in-one-layout"
 	}
 	return "interface-removed-from-its-node"
+}
+
+// editedEnum: the enum whose maximum index the call may change
+func editedEnum(p *Pool, o Op) *acme.SignalEnum {
+	switch o.Name {
+	case "EnumAddValue", "EnumRemoveValue", "EnumRemoveAllValues":
+		if len(o.A) > 0 {
+			return p.enum(o.A[0])
+		}
+	case "EvalUpdateIndex":
+		if len(o.A) > 0 {
+			if v := p.eval(o.A[0]); v != nil {
+				return v.ParentEnum()
+			}
+		}
+	}
+	return nil
+}
+
+func positions(p *Pool) map[int]int {
+	out := map[int]int{}
+	for _, h := range p.of(KSig) {
+		out[h] = p.ents[h-1].Sig.GetRelativeStartPos()
+	}
+	return out
 }
 
 func dash(s string) string { return strings.ReplaceAll(s, " ", "-") }
@@ -149,6 +176,11 @@ func (r *Run) runHistory(idx int, next func(p *Pool, step int) (Op, bool), onTai
 		}
 		shared := sharedFollower(p, o)
 		c01pre := c01Before(p, o)
+		var relBefore map[int]int // enum edits: positions of all signals and the size of the enum before the call
+		enumSizeBefore := -1
+		if en := editedEnum(p, o); en != nil {
+			relBefore, enumSizeBefore = positions(p), en.GetSize()
+		}
 		var oldSender int64 // IfAddSent: the interface that sent the message before the call
 		if o.Name == "IfAddSent" && len(o.A) > 1 {
 			if m := p.msg(o.A[1]); m != nil && m.SenderNodeInterface() != nil {
@@ -251,6 +283,15 @@ func (r *Run) runHistory(idx int, next func(p *Pool, step int) (Op, bool), onTai
 					}
 				}
 				failOn("c06", kind+st, st+" "+v)
+			}
+		}
+		if en := editedEnum(p, o); en != nil && relBefore != nil && out.Err == nil && !out.Panicked && en.GetSize() == enumSizeBefore {
+			// the size of the enum did not change: no signal may move
+			for h, r := range positions(p) {
+				if old, ok := relBefore[h]; ok && old != r {
+					failOn("c06", "c06-moved-without-size-change@"+st, fmt.Sprintf("%s kept the size of the enum (%d bits) but %s moved from %d to %d", st, enumSizeBefore, p.describe(h), old, r))
+					break
+				}
 			}
 		}
 		if po, isP := plainOps[o.Name]; isP && po.frame && out.Err == nil {
